@@ -350,7 +350,7 @@ PROPS = {
     },
     "C10": {
         "lean_modules": ["Dbg.Props.C10", "Dbg.Props.C10b"],
-        "theorems": ["Kmer.C10_hd1_strings", "KSpec.hd1_sound", "KSpec.hd1_complete", "KSpec.hd1_length", "Kmer.shipped_wf", "Kmer.shipped_count", "Kmer.C10_get", "Kmer.C10_set", "Kmer.C10_set_inv", "Kmer.C10_extendRight",
+        "theorems": ["Kmer.C10_getExtensions", "Kmer.C10_hd1_strings", "KSpec.hd1_sound", "KSpec.hd1_complete", "KSpec.hd1_length", "Kmer.shipped_wf", "Kmer.shipped_count", "Kmer.C10_get", "Kmer.C10_set", "Kmer.C10_set_inv", "Kmer.C10_extendRight",
                      "Kmer.C10_extendLeft", "Kmer.C10_fromBytes", "Kmer.C10_rc", "Kmer.C10_toU64", "Kmer.C10_setSlice", "Kmer.C10_fromU64",
                      "Kmer.C10_u64_roundtrip", "Kmer.C10_toString", "Kmer.C10_fromAscii", "Kmer.C10_kmersFromBytes", "Kmer.C10_kmersFromAscii",
                      "Kmer.C10_hamming", "Kmer.C10_atCount", "Kmer.C10_gcCount"],
